@@ -6,6 +6,7 @@ the expected composition, charge and density come from the tree, never from a
 parser.  Malformed strings are one fixed, unambiguous malformation of a valid
 rendering and must be rejected with an exception.
 """
+from .. import subtable
 from fractions import Fraction
 
 from hypothesis import strategies as st
@@ -42,10 +43,18 @@ def env():
     if not _STATE:
         import periodictable
         from periodictable import core, mass, density
-        T = core.PeriodicTable("c01-private")
+        T = subtable.new("c01-private")
         mass.init(T)
         density.init(T)
-        _STATE["tables"] = {"public": periodictable.elements, "private": T}
+        # a private table that is an instance of a user subclass (pbt/subtable.py): undefined attributes are looked
+        # up in the public table, iteration skips the neutron; half its densities differ from the public ones
+        S = subtable.make("both", "c01-subclass")
+        mass.init(S)
+        density.init(S)
+        for el in S:
+            if el._density is not None and el.number % 2:
+                el._density = el._density * 0.5
+        _STATE["tables"] = {"public": periodictable.elements, "private": T, "subclass": S}
         _STATE["pool"] = Pool(periodictable.elements)
         _STATE["formula"] = periodictable.formula
         _STATE["emass"] = periodictable.constants.electron_mass
@@ -402,7 +411,7 @@ def check_malformed(ctx, value, which="public"):
 
 
 # ----------------------------------------------------------------------
-ORDERS = [["public", "private"], ["private", "public"], ["public"], ["private"]]
+ORDERS = [["public", "private"], ["private", "public"], ["public"], ["private"], ["public", "subclass"], ["subclass", "private"]]
 
 
 def task_valid(ctx, n, depth, tower=0):
@@ -425,7 +434,7 @@ def custom_table():
     E = env()
     if "custom" not in E["tables"]:
         from periodictable import core, mass, density
-        T = core.PeriodicTable("c01-custom")
+        T = subtable.new("c01-custom")
         mass.init(T)
         density.init(T)
         pristine = []
@@ -490,9 +499,41 @@ def task_malformed(ctx, n):
     ctx.search("malformed", strat, fn, n)
 
 
+def check_mixed(ctx, value):
+    """value = (valid tree, tree to malform, kind, r, [table of the rejected string, table of the valid one], echo):
+    a string that is rejected (and whose rejection the caller catches) must leave nothing behind: the valid string
+    parsed right after it, on the same or on the other table, denotes what its own tree says.  With *echo* the valid
+    string is the well-formed original of the rejected one."""
+    tree, bad, kind, r, (w_bad, w_ok), echo = value
+    E = env()
+    try:
+        check_malformed(ctx, (bad, kind, r), w_bad)
+    except Violation as v:
+        v.case = {"kind": "mixed", "value": value}
+        raise
+    try:
+        check_valid(ctx, bad if echo else tree, w_ok)
+    except Violation as v:
+        m = malform(bad, kind, r)
+        raise Violation(v.bucket + ":after-rejected-string",
+                        v.message + " [parsed right after the rejected string %r on the %s table]"
+                        % (m[0] if m else None, w_bad), {"kind": "mixed", "value": value})
+
+
+def task_mixed(ctx, n, depth):
+    E = env()
+    pool = E["pool"]
+    strat = st.tuples(fa.compound(pool, depth=depth), fa.compound(pool, depth=2), st.sampled_from(KINDS),
+                      st.lists(st.integers(0, 10**6), min_size=4, max_size=4),
+                      st.sampled_from([["public", "public"], ["private", "private"], ["public", "private"],
+                                       ["private", "public"]]), st.booleans()).map(list)
+    ctx.search("mixed", strat, check_mixed, n)
+
+
 def tasks(tier):
     if tier == "quick":
         return [("valid-a", task_valid, dict(n=1000, depth=3)),
+                ("mixed", task_mixed, dict(n=400, depth=2)),
                 ("valid-b", task_valid, dict(n=1000, depth=2)),
                 ("deep", task_valid, dict(n=250, depth=0, tower=12)),
                 ("customised", task_custom, dict(n=500, depth=2)),
@@ -506,6 +547,8 @@ def tasks(tier):
     for k in range(5):
         out.append(("malformed-%d" % k, task_malformed, dict(n=15000)))
     out.append(("customised", task_custom, dict(n=8000, depth=3)))
+    out.append(("mixed-0", task_mixed, dict(n=10000, depth=2)))
+    out.append(("mixed-1", task_mixed, dict(n=10000, depth=3)))
     # coverage-guided tier (pbt/fuzz.py): libFuzzer drives the same strategies and oracles
     from .. import fuzz
     fuzz.extend(out, PROPERTY, ["valid-1", "malformed-0"])
@@ -513,7 +556,9 @@ def tasks(tier):
 
 
 def replay(ctx, case):
-    if case["kind"] == "custom":
+    if case["kind"] == "mixed":
+        check_mixed(ctx, case["value"])
+    elif case["kind"] == "custom":
         check_custom(ctx, (case["tree"], case["steps"]))
     elif case["kind"] == "valid":
         check_valid(ctx, case["tree"], case.get("table", "public"))
